@@ -90,7 +90,7 @@ func (db *DB) repairCompactions() error {
 		absReplacementPath := filepath.Join(db.basePath, meta.ReplacementPath)
 
 		log.Printf("finishing compaction in %s into %s", absWritePath, absReplacementPath)
-		err := os.RemoveAll(absReplacementPath)
+		err := removeSSTable(absReplacementPath)
 		if err != nil {
 			return err
 		}
@@ -102,7 +102,7 @@ func (db *DB) repairCompactions() error {
 
 		for _, sstablePath := range meta.SstablePaths {
 			if sstablePath != meta.ReplacementPath {
-				err := os.RemoveAll(filepath.Join(db.basePath, sstablePath))
+				err := removeSSTable(filepath.Join(db.basePath, sstablePath))
 				if err != nil {
 					return err
 				}
@@ -155,7 +155,7 @@ func (db *DB) reconstructSSTables() error {
 			}
 			if incomplete {
 				log.Printf("found unfinished sstable to be deleted in %v", p)
-				err = os.RemoveAll(p)
+				err = removeSSTable(p)
 				if err != nil {
 					return err
 				}
@@ -187,15 +187,15 @@ func (db *DB) reconstructSSTables() error {
 func isIncompleteSSTable(tablePath string) (bool, error) {
 	// the metadata is created empty when the table is opened for writing and is the last thing written when it is closed
 	metaStat, err := os.Stat(filepath.Join(tablePath, sstables.MetaFileName))
-	if err == nil {
-		return metaStat.Size() == 0, nil
+	if err == nil && metaStat.Size() == 0 {
+		return true, nil
 	}
-	if !os.IsNotExist(err) {
+	if err != nil && !os.IsNotExist(err) {
 		return false, err
 	}
 
-	// no metadata at all: either this is a table of an old format version, or the process died even before the metadata
-	// file was created. In the latter case no record was written yet, it's enough to check for the headers of the other files.
+	// tables of an old format version have no metadata at all. Every table has an index and a data file with a header
+	// though, they are missing when the process died before they were created or while the table was removed (the index goes first).
 	for _, name := range []string{sstables.IndexFileName, sstables.DataFileName} {
 		stat, err := os.Stat(filepath.Join(tablePath, name))
 		if os.IsNotExist(err) {
@@ -210,6 +210,18 @@ func isIncompleteSSTable(tablePath string) (bool, error) {
 	}
 
 	return false, nil
+}
+
+// removeSSTable removes a table directory such that a process that dies in between never leaves something behind that
+// still loads as a table: the index goes first, without it the directory is recognized as unfinished by the next
+// recovery (see isIncompleteSSTable) and removed for good. A plain os.RemoveAll removes in directory order, which can
+// e.g. take the metadata first and leave a directory that is mistaken for a table of an old format version.
+func removeSSTable(tablePath string) error {
+	err := os.Remove(filepath.Join(tablePath, sstables.IndexFileName))
+	if err != nil && !os.IsNotExist(err) {
+		return err
+	}
+	return os.RemoveAll(tablePath)
 }
 
 func (db *DB) replayAndSetupWriteAheadLog() error {
